@@ -339,6 +339,26 @@ fn run_iter_rd(capacity: u64, low: u64, data: &Arc<Vec<u8>>, sched: &[u64], adap
     let concrete = returned.lock().unwrap().clone();
     (r, n, concrete)
 }
+/// like `drain`, additionally (bytes_processed, bytes_skipped, frame size) after every yielded message
+fn drain_tracked<R: BufRead>(start: u32, reader: R, storage: bool) -> (IterObs, Vec<(u64, u64, u64)>) {
+    let mut it = DltMessageIterator::new(start, reader);
+    let mut msgs = vec![];
+    let mut sizes = vec![];
+    let mut track = vec![];
+    while let Some(m) = it.next() {
+        sizes.push(m.payload.len());
+        msgs.push(o_msg(&m));
+        track.push((it.bytes_processed as u64, it.bytes_skipped as u64, (if storage { 16 } else { 4 }) + m.standard_header.len as u64));
+    }
+    (
+        IterObs {
+            msgs,
+            counters: vec![it.index as u64, it.bytes_processed as u64, it.bytes_skipped as u64, it.detected_storage_header as u64, it.detected_serial_header as u64],
+            sizes,
+        },
+        track,
+    )
+}
 fn run_iter_whole(data: &Arc<Vec<u8>>, start: u32) -> Result<IterObs, String> {
     catch_loc(AssertUnwindSafe(|| drain(start, Cursor::new(&data[..]))))
 }
@@ -627,6 +647,11 @@ enum CaseIn {
     },
     /// position independence: `prefix` = whole well-formed storage frames, `rest` starts with one
     Pos { prefix: Vec<Seg>, nprefix: u32, rest: Vec<Seg>, start: u32 },
+    /// position independence on every suffix that starts where the iterator stands after j messages (right behind
+    /// message j, i.e. possibly in front of garbage, and at the start of message j+1): a FRESH iterator on the
+    /// suffix must recognise what the iterator on the whole stream recognises from there on.
+    /// `clean`: payload sizes of the frames if the stream is only well-formed frames (then all must be recognised)
+    Suffixes { storage: bool, data: Vec<Seg>, start: u32, clean: Option<Vec<usize>>, seed: u64 },
     /// the configuration of the production call sites is admissible for chunk independence
     CallSites,
 }
@@ -636,6 +661,7 @@ fn record(sink: &mut Sink, c: CaseIn, extra_tags: &[&str]) {
     let input_json = serde_json::to_value(&c).unwrap();
     let mut tags: Vec<String> = extra_tags.iter().map(|s| s.to_string()).collect();
     let mut cost: u64 = 0;
+    let mut classes: Vec<String> = vec![];
     let (input_coq, obs, verdict, nontrivial) = match &c {
         CaseIn::Trace { capacity, low, data, sched, ops, adaptive } => {
             let bytes = Arc::new(expand(data));
@@ -760,6 +786,130 @@ fn record(sink: &mut Sink, c: CaseIn, extra_tags: &[&str]) {
             };
             (format!("CIterWhole {} {}", segs_coq(&all), start), o_iter(&ra), verdict, *nprefix >= 1)
         }
+        CaseIn::Suffixes { storage, data, start, clean, seed } => {
+            let bytes = Arc::new(expand(data));
+            let storage = *storage;
+            tags.push("suffixes".into());
+            tags.push(if storage { "suffixes_storage".into() } else { "suffixes_serial".into() });
+            let mut srng = Rng::new(*seed);
+            // every stream here is far shorter than the low mark, so the reader always ends up showing all that is
+            // left: reader and slice must agree whatever the schedule
+            let (cap, low) = (8192u64, 4096u64);
+            let rd_run = |d: &Arc<Vec<u8>>, st: u32, r: &mut Rng| -> Result<IterObs, String> {
+                let kind = r.below(4);
+                let (sched, ad): (Vec<u64>, Option<u64>) = match kind {
+                    0 => (vec![1; d.len() + 2], None),
+                    1 => ((0..d.len() + 2).map(|_| r.range(1, 9)).collect(), None),
+                    2 => (vec![], Some(r.next())),
+                    _ => (vec![], None),
+                };
+                run_iter_rd(cap, low, d, &sched, ad, st).0
+            };
+            let whole = catch_loc(AssertUnwindSafe(|| drain_tracked(*start, Cursor::new(&bytes[..]), storage)));
+            let mut fails: Vec<(String, String)> = vec![];
+            let mut cuts_obs = vec![];
+            let mut cuts_coq = vec![];
+            let mut nontriv = false;
+            let obs_whole;
+            match &whole {
+                Err(e) => {
+                    fails.push(("no_panic".into(), e.clone()));
+                    obs_whole = O::T(vec![O::L(9)]);
+                }
+                Ok((a, track)) => {
+                    obs_whole = o_iter(&Ok(a.clone()));
+                    let n = a.msgs.len();
+                    if let Ok(w2) = rd_run(&bytes, *start, &mut srng) {
+                        if &w2 != a {
+                            fails.push(("iter_chunk_independent".into(), format!("whole stream ({} bytes) over the reader: {:?} {:?}; over the slice: {:?} {:?}", bytes.len(), w2.sizes, w2.counters, a.sizes, a.counters)));
+                        }
+                    } else {
+                        fails.push(("no_panic".into(), "reader run panicked".into()));
+                    }
+                    if let Some(sizes) = clean {
+                        if &a.sizes != sizes {
+                            fails.push(("clean_stream_all_messages".into(), format!("a stream of {} well-formed frames ({} bytes) yields payload sizes {:?}, expected {:?}", sizes.len(), bytes.len(), a.sizes, sizes)));
+                        }
+                    }
+                    // cuts: (offset, messages in front, bytes skipped up to there)
+                    let mut cuts: Vec<(u64, usize, u64)> = vec![];
+                    for j in 0..n {
+                        let (e, k, sz) = track[j];
+                        if e >= sz {
+                            cuts.push((e - sz, j, k)); // start of message j (j messages in front)
+                        }
+                        cuts.push((e, j + 1, k)); // right behind message j
+                    }
+                    cuts.dedup();
+                    if n == 0 && !bytes.is_empty() {
+                        tags.push("suffixes_no_message".into());
+                    }
+                    for (c, j, k) in cuts.iter().cloned() {
+                        if c == 0 && j == 0 {
+                            continue;
+                        }
+                        let suf = Arc::new(bytes[c as usize..].to_vec());
+                        let st = *start + j as u32;
+                        let r = run_iter_whole(&suf, st);
+                        if suf.len() < 20 {
+                            tags.push("suffix_shorter_than_20".into());
+                        }
+                        cuts_obs.push(O::T(vec![O::n(c), O::n(j as u64), o_iter(&r), O::L(1)]));
+                        cuts_coq.push(format!("({}, {})", c, j));
+                        let r = match r {
+                            Ok(r) => r,
+                            Err(e) => {
+                                fails.push(("no_panic".into(), e));
+                                continue;
+                            }
+                        };
+                        match rd_run(&suf, st, &mut srng) {
+                            Ok(r2) if r2 == r => {}
+                            Ok(r2) => fails.push(("iter_chunk_independent".into(), format!("suffix of {} bytes over the reader: {:?} {:?}; over the slice: {:?} {:?}", suf.len(), r2.sizes, r2.counters, r.sizes, r.counters))),
+                            Err(e) => fails.push(("no_panic".into(), e)),
+                        }
+                        nontriv |= j >= 1 && !r.msgs.is_empty();
+                        let want = &a.msgs[j..];
+                        let same_items = r.msgs[..] == *want && r.counters[0] == a.counters[0];
+                        // counters: bytes_processed / bytes_skipped of the suffix run = those of the whole run minus what
+                        // lies in front of the cut.  (A fresh iterator that never yields a storage message keeps trying the
+                        // serial parser and skips on where the latched one stops: only then the counters may differ.)
+                        let counters_apply = !storage || !r.msgs.is_empty();
+                        let same_counters = r.counters[1] + c == a.counters[1] && r.counters[2] + k == a.counters[2];
+                        if !same_items {
+                            fails.push((
+                                "position_independent".into(),
+                                format!(
+                                    "{} stream of {} bytes: after {} message(s) (offset {}) the iterator recognises payload sizes {:?}, a fresh iterator on the same {} remaining bytes recognises {:?}",
+                                    if storage { "storage" } else { "serial" },
+                                    bytes.len(),
+                                    j,
+                                    c,
+                                    &a.sizes[j..],
+                                    suf.len(),
+                                    r.sizes
+                                ),
+                            ));
+                        } else if counters_apply && !same_counters {
+                            fails.push((
+                                "position_independent".into(),
+                                format!("offset {} after {} message(s): counters of the suffix run {:?} do not add up to those of the whole run {:?} (skipped in front: {})", c, j, r.counters, a.counters, k),
+                            ));
+                        }
+                    }
+                }
+            }
+            let verdict = match fails.first() {
+                None => Verdict::Ok,
+                Some((c, d)) => Verdict::Fail { clause: c.clone(), detail: d.clone() },
+            };
+            (
+                format!("CSuffixes {} {} {} {}", cbool(storage), segs_coq(data), start, clist(&cuts_coq)),
+                O::T(vec![obs_whole, O::T(cuts_obs)]),
+                verdict,
+                nontriv,
+            )
+        }
         CaseIn::CallSites => {
             let repo = std::env::var("VERIF_REPO").unwrap_or("/repo".into());
             tags.push("call_sites".into());
@@ -796,10 +946,10 @@ fn record(sink: &mut Sink, c: CaseIn, extra_tags: &[&str]) {
             return;
         }
         tags.push("model_side_omitted".into());
-        sink.push(Case { id, input_coq: "CTrace 4097 1 [] [] []".into(), input_json, obs: O::T(vec![]), verdict, classes: vec![], tags, nontrivial, key });
+        sink.push(Case { id, input_coq: "CTrace 4097 1 [] [] []".into(), input_json, obs: O::T(vec![]), verdict, classes, tags, nontrivial, key });
         return;
     }
-    sink.push(Case { id, input_coq, input_json, obs, verdict, classes: vec![], tags, nontrivial, key });
+    sink.push(Case { id, input_coq, input_json, obs, verdict, classes, tags, nontrivial, key });
 }
 
 // ------------------------------------------------------------------ generators
@@ -955,6 +1105,101 @@ fn gen_pos(rng: &mut Rng) -> CaseIn {
     let (more, _, _) = gen_stream(rng, 6, 800);
     rest.extend(more);
     CaseIn::Pos { prefix, nprefix: n, rest, start: rng.below(1000) as u32 }
+}
+
+/// header / payload bytes that can never form a frame marker of either framing (no 'D')
+fn plain_byte(rng: &mut Rng) -> u8 {
+    let b = rng.below(255) as u8;
+    if b == b'D' { 0x45 } else { b }
+}
+/// a small well-formed frame of exactly `total` bytes if possible (serial: >= 8, storage: >= 20); returns (segments, payload size)
+fn tiny_frame(rng: &mut Rng, storage: bool, total: u64) -> (Vec<Seg>, usize) {
+    let hdr = if storage { 16 } else { 4 };
+    let total = total.max(hdr + 4);
+    let room = total - hdr - 4;
+    let mut htyp: u8 = 0x20 | ((rng.below(2) as u8) << 1);
+    let mut opt = 0;
+    for (bit, sz) in [(4u8, 4u64), (8, 4), (16, 4), (1, 10)] {
+        if opt + sz <= room && rng.chance(1, 3) {
+            htyp |= bit;
+            opt += sz;
+        }
+    }
+    let psz = room - opt;
+    let mut h: Vec<u8> = vec![];
+    if storage {
+        h.extend_from_slice(b"DLT\x01");
+        for _ in 0..12 {
+            h.push(plain_byte(rng));
+        }
+    } else {
+        h.extend_from_slice(b"DLS\x01");
+    }
+    h.push(htyp);
+    h.push(plain_byte(rng));
+    h.extend_from_slice(&((4 + opt + psz) as u16).to_be_bytes());
+    for _ in 0..opt + psz {
+        h.push(plain_byte(rng));
+    }
+    (vec![Seg::Lit(h)], psz as usize)
+}
+/// tiny streams for the suffix oracle: 0..6 small frames of one framing (serial 8..30 bytes, storage 20..50), garbage
+/// between / behind them, truncated or over-claiming frames, tails of 0..40 bytes
+fn gen_suffixes(rng: &mut Rng) -> CaseIn {
+    let storage = rng.chance(2, 5);
+    let k = match rng.below(8) {
+        0 => 0,
+        1 => 1,
+        2 => 2,
+        _ => rng.range(1, 6),
+    };
+    let dirty = rng.chance(1, 2);
+    let mut data = vec![];
+    let mut sizes = vec![];
+    let mut clean = true;
+    let garbage = |rng: &mut Rng| -> Seg { Seg::Lit((0..rng.range(1, 7)).map(|_| plain_byte(rng)).collect()) };
+    for i in 0..k {
+        if dirty && rng.chance(1, 4) {
+            data.push(garbage(rng));
+            clean = false;
+        }
+        let total = if storage { rng.range(20, 50) } else { rng.range(8, 30) };
+        let (f, psz) = tiny_frame(rng, storage, total);
+        if dirty && i + 1 < k && rng.chance(1, 12) {
+            // length field claims more than the stream holds
+            let mut b = expand(&f);
+            let at = if storage { 18 } else { 6 };
+            b[at] = 0x20;
+            data.push(Seg::Lit(b));
+            clean = false;
+        } else {
+            data.extend(f);
+            sizes.push(psz);
+        }
+    }
+    if dirty || k == 0 {
+        match rng.below(5) {
+            0 => {
+                data.push(Seg::Lit((0..rng.range(1, 40)).map(|_| plain_byte(rng)).collect()));
+                clean = false;
+            }
+            1 | 2 => {
+                // a lone truncated frame as tail
+                let total = if storage { rng.range(20, 50) } else { rng.range(8, 30) };
+                let b = expand(&tiny_frame(rng, storage, total).0);
+                let cut = rng.range(1, b.len() as u64 - 1) as usize;
+                data.push(Seg::Lit(b[..cut].to_vec()));
+                clean = false;
+            }
+            3 => {
+                let m = marker(storage);
+                data.push(Seg::Lit(m[..rng.range(1, 4) as usize].to_vec()));
+                clean = false;
+            }
+            _ => {}
+        }
+    }
+    CaseIn::Suffixes { storage, data, start: rng.below(1000) as u32, clean: if clean { Some(sizes) } else { None }, seed: rng.next() }
 }
 
 /// DESIGN Appendix A, C04-1: one maximum-size storage frame with an embedded marker, garbage, a small frame
@@ -1184,6 +1429,54 @@ fn main() {
         );
     }
 
+    // position: five serial frames of 11 bytes (the last 11 bytes alone are fewer than a storage frame's minimum),
+    // lone serial frames of every size 8..30, two 8-byte frames, lone truncated frames, a 20-byte storage frame
+    {
+        let mut r3 = Rng::new(7);
+        let mut five = vec![];
+        for _ in 0..5 {
+            five.extend(tiny_frame(&mut r3, false, 11).0);
+        }
+        let five_sizes: Vec<usize> = {
+            // recompute payload sizes from the frames (total 11 = 4 + 4 + opt + payload)
+            let b = expand(&five);
+            (0..5).map(|i| (u16::from_be_bytes([b[i * 11 + 6], b[i * 11 + 7]]) as usize) - 4 - opt_size(b[i * 11 + 4]) as usize).collect()
+        };
+        record(&mut sink, CaseIn::Suffixes { storage: false, data: five, start: 0, clean: Some(five_sizes), seed: 1 }, &["corpus", "witness_short_serial_suffix"]);
+        for total in 8..=30u64 {
+            let (f, psz) = tiny_frame(&mut r3, false, total);
+            record(&mut sink, CaseIn::Suffixes { storage: false, data: f.clone(), start: 5, clean: Some(vec![psz]), seed: total }, &["corpus", "lone_serial_frame"]);
+            if total % 4 == 0 {
+                let b = expand(&f);
+                record(&mut sink, CaseIn::Suffixes { storage: false, data: vec![Seg::Lit(b[..b.len() - 1].to_vec())], start: 5, clean: None, seed: total }, &["corpus", "lone_truncated_frame"]);
+                let (g, psz2) = tiny_frame(&mut r3, false, 8);
+                let mut two = f.clone();
+                two.extend(g);
+                record(&mut sink, CaseIn::Suffixes { storage: false, data: two, start: 0, clean: Some(vec![psz, psz2]), seed: total }, &["corpus"]);
+            }
+        }
+        for total in [20u64, 21, 39, 40] {
+            let (f, psz) = tiny_frame(&mut r3, true, total);
+            let (g, psz2) = tiny_frame(&mut r3, true, 20);
+            let mut two = f.clone();
+            two.extend(g);
+            record(&mut sink, CaseIn::Suffixes { storage: true, data: two, start: 0, clean: Some(vec![psz, psz2]), seed: total }, &["corpus"]);
+            let b = expand(&f);
+            record(&mut sink, CaseIn::Suffixes { storage: true, data: vec![Seg::Lit(b[..b.len() - 1].to_vec())], start: 0, clean: None, seed: total }, &["corpus", "lone_truncated_frame"]);
+        }
+        // repaired by 9045554 (was: a fresh iterator scanned past the incomplete frame): storage frame, a storage header
+        // claiming 8192 bytes, a storage frame; the position oracle applies to it like to any other stream
+        let (m0, _) = tiny_frame(&mut r3, true, 20);
+        let (x, _) = tiny_frame(&mut r3, true, 20);
+        let (m1, _) = tiny_frame(&mut r3, true, 24);
+        let mut xb = expand(&x);
+        xb[18] = 0x20;
+        let mut d = m0;
+        d.push(Seg::Lit(xb));
+        d.extend(m1);
+        record(&mut sink, CaseIn::Suffixes { storage: true, data: d, start: 0, clean: None, seed: 3 }, &["corpus", "witness_fresh_scans_past_short_frame"]);
+    }
+
     // ---- generated
     let (nt, ni, np) = match a.tier.as_str() {
         "quick" => (300, 260, 60),
@@ -1202,6 +1495,10 @@ fn main() {
     }
     for _ in 0..scale(np) {
         let c = gen_pos(&mut rng);
+        record(&mut sink, c, &[]);
+    }
+    for _ in 0..scale(2 * np) {
+        let c = gen_suffixes(&mut rng);
         record(&mut sink, c, &[]);
     }
     for _ in 0..scale(np / 4) {
